@@ -9,6 +9,9 @@ import (
 	"fmt"
 	_ "golang.org/x/crypto/sha3" // links SHA3-*: SHA3-384 has the same output size as SHA-384
 	"math"
+	"testing"
+	"testing/synctest"
+	"time"
 
 	"github.com/google/go-tdx-guest/rtmr"
 	"verif/sim/core"
@@ -106,6 +109,18 @@ func c17Run(r *core.Run) {
 		}
 	}
 	faulty := r.Index%3 == 2 // fault-injecting configurations run apart from fault-free ones
+	slow := r.Index%3 == 1   // a TSM whose operations take simulated time (fault-free)
+	if slow {
+		base := []time.Duration{time.Millisecond, 40 * time.Millisecond, 1500 * time.Millisecond, 31 * time.Second}[t.Draw(4)]
+		slowKind := []string{"write", "read", "readdir", "mkdir", ""}[t.Draw(5)]
+		tsm.Latency = func(kind, path string) time.Duration {
+			if slowKind == "" || kind == slowKind {
+				return base
+			}
+			return time.Millisecond
+		}
+		r.Probe("slow_tsm")
+	}
 	bigLog := t.Bytes(1 << 20)
 	model := map[int][48]byte{}
 	n := 1 + t.Draw(12)
@@ -131,10 +146,38 @@ func c17Run(r *core.Run) {
 		preBound := tsm.BoundReadable(q.index)
 		preUnreadable := tsm.BoundUnreadable(q.index)
 		var o core.Outcome
-		if q.eventLog {
-			o = core.Call(func() error { return rtmr.ExtendEventLogClient(tsm, q.index, q.hash, q.log) })
+		call := func() {
+			if q.eventLog {
+				o = core.Call(func() error { return rtmr.ExtendEventLogClient(tsm, q.index, q.hash, q.log) })
+			} else {
+				o = core.Call(func() error { return rtmr.ExtendDigestClient(tsm, q.index, q.digest) })
+			}
+		}
+		if slow {
+			// a TSM whose operations take (simulated) time: the request runs in a fake-clock bubble, and after it
+			// has returned the clock runs on for an hour, so that whatever was still on its way has landed
+			// before the registers are looked at
+			leak := ""
+			func() {
+				defer func() {
+					if p := recover(); p != nil {
+						leak = fmt.Sprint(p)
+					}
+				}()
+				synctest.Test(r.TB, func(*testing.T) {
+					tsm.InBubble = true
+					defer func() { tsm.InBubble = false }()
+					call()
+					time.Sleep(time.Hour)
+					synctest.Wait()
+				})
+			}()
+			tsm.InBubble = false
+			if leak != "" {
+				r.Violate("C17:goroutines-left-blocked", "%s: after the request returned, goroutines it started were still blocked: %s", q, leak)
+			}
 		} else {
-			o = core.Call(func() error { return rtmr.ExtendDigestClient(tsm, q.index, q.digest) })
+			call()
 		}
 		r.Eval()
 		dw := tsm.DigestWrites()
@@ -288,7 +331,7 @@ func init() {
 	register(&core.Check{
 		ID:    "C17",
 		Level: "exploration",
-		Rule: "per run a history of 1-12 extend requests (ExtendDigestClient / ExtendEventLogClient; index in {-2^31,-1,0..5,2^31-1}, digest length {0,1,47,48,49,64}, hash {SHA-1,SHA-256,SHA-384,SHA-512,0}, log {nil,empty,1 B,1 MiB,random}) against a model TSM (configfsi.Client) that starts empty or with pre-existing entries (same index / other / unbound / unreadable index / all four) and implements register extension, showing an unbound entry's index as a read error / empty / -1 and a bound one with or without trailing newline (tape); every third run injects an I/O error at the k-th client call. " +
+		Rule: "per run a history of 1-12 extend requests (ExtendDigestClient / ExtendEventLogClient; index in {-2^31,-1,0..5,2^31-1}, digest length {0,1,47,48,49,64}, hash {SHA-1,SHA-256,SHA-384,SHA-512,0}, log {nil,empty,1 B,1 MiB,random}) against a model TSM (configfsi.Client) that starts empty or with pre-existing entries (same index / other / unbound / unreadable index / all four) and implements register extension, showing an unbound entry's index as a read error / empty / -1 and a bound one with or without trailing newline (tape); every third run injects an I/O error at the k-th client call; every third run the TSM's operations take simulated time (1 ms .. 31 s per operation, fake-clock bubble; the registers are examined an hour after the request returned). " +
 			"distinct = (call kind, index bucket, validity, fault fired, outcome)",
 		Assumptions: []string{"the model TSM refuses a second entry for an index (EBUSY), as configfs-tsm does", "linuxtsm.MakeClient (real configfs) is the far side of the seam and is not exercised"},
 		RealStub:    map[string]string{"rtmr.ExtendDigestClient / ExtendEventLogClient": "real", "go-configfs-tsm rtmr.ExtendDigest": "real", "configfs-tsm": "stub (world.TSM model)"},
@@ -299,6 +342,6 @@ func init() {
 			return 3000
 		},
 		Run:       c17Run,
-		MustProbe: []string{"invalid_request", "entry_created", "entry_reused", "io_fault_fired", "persistent_io_fault", "preexisting_entry_same_index", "preexisting_entry_unreadable_index", "preexisting_unbound_entry"},
+		MustProbe: []string{"invalid_request", "entry_created", "entry_reused", "io_fault_fired", "persistent_io_fault", "preexisting_entry_same_index", "preexisting_entry_unreadable_index", "preexisting_unbound_entry", "slow_tsm"},
 	})
 }
